@@ -529,3 +529,70 @@ def case_dual(ctx, cfg):
             if e is not None or bool(r) != want:
                 ctx.fail(f"is_tangent:{name}:{type(e).__name__ if e is not None else 'value'}", "is_tangent", {**inputs, "hyperplane": h}, want, e if e is not None else bool(r))
                 return
+
+
+# ---------------------------------------------------------------------------------------------------
+# small circles / spheres far from the origin (dyadic radii, integer centres: still exactly representable)
+
+
+def enum_far(tier, seed):
+    for c in [(300, 400), (100, -100), (50, 20), (-64, 3), (0, 0), (5, 5)]:
+        for r in (0.25, 0.5, 0.1875, 2):
+            yield ("circle", c, r)
+    for c in [(30, 40, 0), (10, -10, 20), (0, 0, 0)]:
+        for r in (0.25, 0.5, 2):
+            yield ("sphere", c, r)
+
+
+@family("C14", "small_far_circles", enum_far)
+def case_far(ctx, cfg):
+    import geometer as G
+
+    kind, c, r = cfg
+    ctx.state((kind, tuple(c), r))
+    ctx.tally("far" if max(map(abs, c)) >= 50 else "near")
+    inputs = {"kind": kind, "center": c, "radius": r}
+    if kind == "circle":
+        Q = G.Circle(G.Point(*c), r)
+        p1, p2, p3 = (c[0] + r, c[1], 1), (c[0], c[1] + r, 1), (c[0] - r, c[1], 1)
+        deg, e = ctx.call(lambda: Q.is_degenerate)
+        if e is not None or bool(deg):
+            ctx.fail("far-circle:is_degenerate", "is_degenerate", inputs, False, e if e is not None else bool(deg))
+            return
+        for a, b in ((p1, p2), (p1, p3), (p2, p3)):
+            L = G.Line(G.Point(np.array(a, dtype=float)), G.Point(np.array(b, dtype=float)))
+            res, e = ctx.call(Q.intersect, L)
+            ctx.trace()
+            want = [np.array(a, dtype=complex), np.array(b, dtype=complex)]
+            if e is not None or not match_points([np.asarray(x.array) for x in res], want, 1e-6):
+                ctx.fail("far-circle:secant", "intersect", {**inputs, "through": [a, b]}, [a, b], e if e is not None else [x.array for x in res])
+                return
+        # tangent at p1 is the vertical line x = cx + r
+        t, e = ctx.call(Q.tangent, G.Point(np.array(p1, dtype=float)))
+        if e is not None or not proj_eq(np.asarray(getattr(t, "array", t)), np.array([1.0, 0.0, -(c[0] + r)]), 1e-6):
+            ctx.fail("far-circle:tangent", "tangent", inputs, [1, 0, -(c[0] + r)], e if e is not None else getattr(t, "array", t))
+            return
+        # tangents from an outside point touch the circle
+        out = G.Point(c[0] + 2 * r, c[1] + 3 * r)
+        ts, e = ctx.call(Q.tangent, out)
+        if e is not None or not isinstance(ts, tuple) or len(ts) != 2:
+            ctx.fail("far-circle:tangents-from-point", "tangent", inputs, "two lines", e if e is not None else ts)
+            return
+        for ln in ts:
+            la = np.real_if_close(np.asarray(ln.array))
+            dist_c = abs(la[0] * c[0] + la[1] * c[1] + la[2]) / np.hypot(abs(la[0]), abs(la[1]))
+            if abs(dist_c - r) > 1e-5 * max(1, r):
+                ctx.fail("far-circle:tangents-from-point:not-tangent", "tangent", inputs, f"distance {r} from the centre", float(np.real(dist_c)))
+                return
+    else:
+        Q = G.Sphere(G.Point(*c), r)
+        deg, e = ctx.call(lambda: Q.is_degenerate)
+        if e is not None or bool(deg):
+            ctx.fail("far-sphere:is_degenerate", "is_degenerate", inputs, False, e if e is not None else bool(deg))
+            return
+        a, b = (c[0] + r, c[1], c[2], 1), (c[0], c[1], c[2] - r, 1)
+        L = G.Line(G.Point(np.array(a, dtype=float)), G.Point(np.array(b, dtype=float)))
+        res, e = ctx.call(Q.intersect, L)
+        ctx.trace()
+        if e is not None or not match_points([np.asarray(x.array) for x in res], [np.array(a, dtype=complex), np.array(b, dtype=complex)], 1e-6):
+            ctx.fail("far-sphere:secant", "intersect", {**inputs, "through": [a, b]}, [a, b], e if e is not None else [x.array for x in res])
